@@ -340,7 +340,8 @@ class StorageServer(service.MultiService):
                 # occurs while the first is still in progress, the second
                 # uploader will use different storage servers.
                 pass
-            elif (not limited) or (remaining_space >= max_space_per_bucket):
+            elif (not self.readonly_storage) and (
+                    (not limited) or (remaining_space >= max_space_per_bucket)):
                 # ok! we need to create the new share file.
                 bw = BucketWriter(self, incominghome, finalhome,
                                   max_space_per_bucket, lease_info,
